@@ -221,10 +221,20 @@ impl DomainName {
     fn deserialise(id: u16, buffer: &mut ConsumableBuffer) -> Result<Self, Error> {
         let mut len = 0;
         let mut labels = Vec::<Label>::with_capacity(5);
-        let start = buffer.position;
+        let mut start = buffer.position;
+
+        // after a compression pointer the rest of the name is read from
+        // where it points, the position in `buffer` stays just behind the
+        // pointer.  Pointers are followed in a loop, not by recursion: a
+        // message can hold a chain of thousands of them.
+        let mut pointed_to: Option<ConsumableBuffer> = None;
 
         'outer: loop {
-            let size = buffer.next_u8().ok_or(Error::DomainTooShort(id))?;
+            let current = match pointed_to.as_mut() {
+                Some(other) => other,
+                None => &mut *buffer,
+            };
+            let size = current.next_u8().ok_or(Error::DomainTooShort(id))?;
 
             if usize::from(size) <= LABEL_MAX_LEN {
                 len += 1;
@@ -234,7 +244,7 @@ impl DomainName {
                     break 'outer;
                 }
 
-                if let Some(os) = buffer.take(size as usize) {
+                if let Some(os) = current.take(size as usize) {
                     // safe because of the bounds check above
                     let label = Label::try_from(os).unwrap();
                     len += label.len() as usize;
@@ -247,10 +257,8 @@ impl DomainName {
                     break 'outer;
                 }
             } else if size >= 192 {
-                // this requires re-parsing the pointed-to domain -
-                // not great but works for now.
                 let hi = size & 0b0011_1111;
-                let lo = buffer.next_u8().ok_or(Error::DomainTooShort(id))?;
+                let lo = current.next_u8().ok_or(Error::DomainTooShort(id))?;
                 let ptr = u16::from_be_bytes([hi, lo]).into();
 
                 // pointer must be to an earlier record (not merely a
@@ -260,10 +268,8 @@ impl DomainName {
                     return Err(Error::DomainPointerInvalid(id));
                 }
 
-                let mut other = DomainName::deserialise(id, &mut buffer.at_offset(ptr))?;
-                len += other.len;
-                labels.append(&mut other.labels);
-                break 'outer;
+                start = ptr;
+                pointed_to = Some(current.at_offset(ptr));
             } else {
                 return Err(Error::DomainLabelInvalid(id));
             }
